@@ -7,6 +7,7 @@ label.  A fault plan {k: kind} decides what happens at point k:
   err_after    perform the call, then raise OSError (lost acknowledgement)
   kill_before  os._exit(137) before the call (no cleanup, no HDF5 flush)
   kill_after   os._exit(137) right after the call returned
+  intr_before  raise KeyboardInterrupt instead of performing the call (Ctrl-C / SIGINT delivered at this point)
 """
 import errno
 import os
@@ -46,6 +47,9 @@ class FaultSeam:
             self.on_point(k, label)
         if kind == "kill_before":
             os._exit(137)
+        if kind == "intr_before":
+            self.fired.append((k, kind, label))
+            raise KeyboardInterrupt(f"injected fault before {label}")
         if kind == "err_before":
             self.fired.append((k, kind, label))
             raise InjectedIOError(ERRNOS[self.errno_pick % len(ERRNOS)], f"injected fault before {label}")
